@@ -473,3 +473,71 @@ Definition u_stv (a : sx) : sx :=
       end
   | _ => bad_input
   end.
+
+(* ------------------------------------------------------------------ C12 *)
+From VL Require Import Model.Cardinal.
+
+Definition as_zsprofile (s : sx) : option sprofile := as_dict (as_dict as_pos as_Q) as_Z s.
+Definition as_score_cfg (s : sx) : option score_cfg :=
+  match s with
+  | L [A f; u; A mc; tr; bt] =>
+      let fn := match f with 0 => Some FMean | 1 => Some FSum | 2 => Some FMedianLow | _ => None end in
+      let un := match u with
+                | L [] => Some UNone
+                | L [q] => match as_Q q with Some q => Some (UConst q) | None => None end
+                | A 1 => Some UMin
+                | _ => None end in
+      match fn, un, as_Q tr, as_Q bt with
+      | Some fn, Some un, Some tr, Some bt => Some (Build_score_cfg fn un mc tr bt)
+      | _, _, _, _ => None
+      end
+  | _ => None
+  end.
+Definition of_serr (e : serr) : sx :=
+  match e with
+  | SE_zerodiv => err E_ZERODIV | SE_stats => err 14 | SE_key => err E_KEY | SE_value => err E_VALUE
+  | SE_nie => err E_NIE | SE_vse => err E_VSE | SE_fuel => err E_FUEL
+  end.
+Definition of_sres (r : list (res C) + serr) : sx :=
+  match r with inl l => ok (L (map of_res l)) | inr e => of_serr e end.
+
+Definition u_pav (a : sx) : sx :=
+  match a with
+  | L [v; n] => match as_aprofile v, as_nat n with
+                | Some v, Some n => match pav v n with AR_ok r => ok (L (map of_res r)) | AR_nie => err E_NIE end
+                | _, _ => bad_input end
+  | _ => bad_input
+  end.
+Definition u_spav (a : sx) : sx :=
+  match a with
+  | L [v; n] => match as_aprofile v, as_nat n with
+                | Some v, Some n => match spav v n with Some r => ok (L (map of_pos r)) | None => err E_NIE end
+                | _, _ => bad_input end
+  | _ => bad_input
+  end.
+(* args: (cfg votes n) *)
+Definition u_score_voting (a : sx) : sx :=
+  match a with
+  | L [c; v; n] => match as_score_cfg c, as_zsprofile v, as_nat n with
+                   | Some c, Some v, Some n => of_sres (score_voting c v n)
+                   | _, _, _ => bad_input end
+  | _ => bad_input
+  end.
+(* args: (plus cfg votes n) *)
+Definition u_mj (a : sx) : sx :=
+  match a with
+  | L [p; c; v; n] => match as_bool p, as_score_cfg c, as_zsprofile v, as_nat n with
+                      | Some p, Some c, Some v, Some n => of_sres (majority_judgment p c v n)
+                      | _, _, _, _ => bad_input end
+  | _ => bad_input
+  end.
+(* args: (cfg votes) -> aggregated simple votes *)
+Definition u_score_to_simple (a : sx) : sx :=
+  match a with
+  | L [c; v] => match as_score_cfg c, as_zsprofile v with
+                | Some c, Some v => match score_to_simple c v with
+                                    | inl d => ok (of_dict of_pos of_Q d)
+                                    | inr e => of_serr e end
+                | _, _ => bad_input end
+  | _ => bad_input
+  end.
